@@ -88,7 +88,7 @@ func (s *camServer) serve(c net.Conn) {
 	defer c.Close()
 	br := bufio.NewReader(c)
 	for {
-		c.SetReadDeadline(time.Now().Add(5 * time.Second))
+		c.SetReadDeadline(time.Now().Add(15 * time.Second))
 		b, err := br.Peek(1)
 		if err != nil {
 			return
@@ -188,6 +188,15 @@ func (cs *CamCase) cbValues(target string) []string {
 }
 
 func (s *camServer) run(cs *CamCase) *camResult {
+	r := s.runOnce(cs)
+	for i := 0; i < 2 && r.step != "" && transient(r.err); i++ {
+		time.Sleep(200 * time.Millisecond)
+		r = s.runOnce(cs)
+	}
+	return r
+}
+
+func (s *camServer) runOnce(cs *CamCase) *camResult {
 	res := &camResult{urlText: cs.resolved(s.port).String()}
 	u, err := base.ParseURL(res.urlText)
 	if err != nil {
@@ -202,8 +211,8 @@ func (s *camServer) run(cs *CamCase) *camResult {
 		Scheme:       u.Scheme,
 		Host:         u.Host,
 		Protocol:     &tcp,
-		ReadTimeout:  3 * time.Second,
-		WriteTimeout: 3 * time.Second,
+		ReadTimeout:  10 * time.Second,
+		WriteTimeout: 10 * time.Second,
 		DialContext:  w.dialer("127.0.0.1:" + strconv.Itoa(s.port)),
 	}
 	fail := func(step string, err error) *camResult {
